@@ -446,8 +446,20 @@ pub fn exec(line: &str, _model: &mut Model) -> Option<Exec> {
             let r = parse_admin(&t[1..])?;
             let v = no_panic(|| serde_cbor::to_vec(&r).ok())??;
             let back = no_panic(|| serde_cbor::from_slice::<AdministrativeRecord>(&v));
-            let mut e = Exec::new(format!("ok {} {}", hex(&v), match &back { None => "panic".into(), Some(Ok(x)) => format!("ok {}", show_admin(x)), Some(Err(_)) => "err".into() }));
+            let refb = match &r { AdministrativeRecord::BundleStatusReport(sr) => no_panic(|| sr.refbundle()).map(|x| hex(x.as_bytes())).unwrap_or("panic".into()), _ => "-".into() };
+            let mut e = Exec::new(format!("ok {} {} ref={}", hex(&v), match &back { None => "panic".into(), Some(Ok(x)) => format!("ok {}", show_admin(x)), Some(Err(_)) => "err".into() }, refb));
             if admin_normal(&r) && !matches!(&back, Some(Ok(x)) if *x == r) { e.oracle_fail = Some("administrative record in normal form does not decode back to an equal record".into()); }
+            if let AdministrativeRecord::BundleStatusReport(sr) = &r {
+                // the bundle (fragment) this report describes, and its ID
+                let mut b = Bundle::default();
+                b.primary.source = sr.source_node.clone();
+                b.primary.creation_timestamp = sr.timestamp.clone();
+                if sr.frag_len > 0 { b.primary.bundle_control_flags |= 1; b.primary.fragmentation_offset = sr.frag_offset; b.primary.total_data_length = sr.frag_len; }
+                let want = no_panic(|| b.id());
+                if admin_normal(&r) && e.oracle_fail.is_none() && want.as_ref().map(|x| hex(x.as_bytes())) != Some(refb.clone()) {
+                    e.oracle_fail = Some(format!("status report reference {:?} is not the ID {:?} of the bundle it describes", sr.refbundle(), want));
+                }
+            }
             e.tags.push(format!("normal:{}", admin_normal(&r)));
             Some(e)
         }
@@ -763,7 +775,7 @@ fn gen_c12(rng: &mut Rng, ctx: &mut Ctx, rep: &mut Report, emit: Emit) {
                 let items = (0..n).map(|_| { let a = rng.chance(1, 2); let r = a && rng.chance(1, 2); BundleStatusItem { asserted: a, time: if r { rng.u64b() } else if rng.chance(1, 30) { 5 } else { 0 }, status_requested: if rng.chance(1, 40) { !r } else { r } } }).collect();
                 let fl = if rng.chance(1, 3) { 1 + rng.u64b() / 2 } else { 0 };
                 AdministrativeRecord::BundleStatusReport(StatusReport { status_information: items, report_reason: match rng.below(4) { 0 => u32::MAX, _ => rng.below(12) as u32 },
-                    source_node: gen_eid_wf(rng), timestamp: CreationTimestamp::with_time_and_seq(rng.u64b(), rng.u64b()), frag_offset: if fl != 0 || rng.chance(1, 30) { rng.u64b() } else { 0 }, frag_len: fl })
+                    source_node: gen_eid_wf(rng), timestamp: CreationTimestamp::with_time_and_seq(rng.u64b(), rng.u64b()), frag_offset: if fl != 0 && rng.chance(1, 3) { 0 } else if fl != 0 || rng.chance(1, 30) { rng.u64b() } else { 0 }, frag_len: fl })
             };
             emit(ctx, rep, format!("adm.enc {}", show_admin(&rec)));
         } else {
@@ -817,6 +829,25 @@ fn gen_c13(rng: &mut Rng, ctx: &mut Ctx, rep: &mut Report, emit: Emit) {
         };
         emit(ctx, rep, format!("idpair {} | {}", show_bundle(&b1), show_bundle(&b2)));
         if i % 8 == 0 { emit(ctx, rep, format!("id {}", show_bundle(&b1))); }
+        if i % 6 == 0 {
+            // C13: the reference string of status reports about b1 (whole bundles, first and later fragments)
+            let fl = if b1.primary.bundle_control_flags & 1 != 0 { 1 + rng.u64b() / 2 } else { 0 };
+            let rec = AdministrativeRecord::BundleStatusReport(StatusReport { status_information: (0..4).map(|k| BundleStatusItem { asserted: k == 1, time: 0, status_requested: false }).collect(), report_reason: 0,
+                source_node: b1.primary.source.clone(), timestamp: b1.primary.creation_timestamp.clone(),
+                frag_offset: if fl != 0 { if rng.chance(1, 3) { 0 } else { b1.primary.fragmentation_offset } } else { 0 }, frag_len: fl });
+            emit(ctx, rep, format!("adm.enc {}", show_admin(&rec)));
+        }
+        if i % 5 == 0 {
+            // same digits, different split between time / sequence number / fragment offset (a lost or
+            // misplaced separator would make these collide)
+            let (t, q, o) = (1 + rng.below(99), rng.below(100), rng.below(100));
+            let cat = |x: u64, y: u64| -> u64 { format!("{}{}", x, y).parse().unwrap_or(u64::MAX) };
+            let src = format!("dtn://n/{}", svc);
+            let f = mk(&src, t, q, true, o);
+            for twin in [mk(&src, t, cat(q, o), false, 0), mk(&src, cat(t, q), o, false, 0), mk(&src, t, q / 10, true, cat(q % 10, o)), mk(&src, cat(t, q), 0, true, o), mk(&src, t, q, false, 0)] {
+                emit(ctx, rep, format!("idpair {} | {}", show_bundle(&f), show_bundle(&twin)));
+            }
+        }
     }
 }
 
